@@ -380,6 +380,10 @@ class SNum(Sym):
             return 1.0 / (self ** (-e))
         if isinstance(e, float) and e == 0.5:
             return self.sqrt()
+        if isinstance(e, float) and 0 < e < 0.5:
+            n = round(1.0 / e)
+            if 3 <= n <= 16 and e == 1.0 / n:
+                return ctx().uf_apply('root%d' % n, [self])      # x ** (1./n): the n-th root (ideal reals)
         if isinstance(e, SNum) and e.kind == 'int':
             return ctx().uf_apply('powi', [self, e.to_real()])
         return ctx().uf_apply('pow', [self, lift(e)])
@@ -467,6 +471,9 @@ class SNum(Sym):
     def conjugate(self):
         return self
     conj = conjugate
+
+    def item(self):
+        return self              # numpy scalar protocol: the value itself
 
     @property
     def real(self):
